@@ -559,7 +559,9 @@ class SimplifiedRegexMatcher(RegexMatcher):
     def __init__(self, func, pattern, step_type=None):
         assert not (pattern.startswith("^") or pattern.endswith("$")), \
             "Regular expression should not use begin/end-markers: "+ pattern
-        expression = r"^%s$" % pattern
+        # -- HINT: Group the pattern, otherwise the begin/end-markers bind only
+        #    to the first/last alternative of a top-level alternation ("a|b").
+        expression = r"^(?:%s)$" % pattern
         super(SimplifiedRegexMatcher, self).__init__(func, expression, step_type)
         # -- NEEDED-FOR: StepRegistry.same_step_definition()
         self.raw_pattern = pattern
